@@ -38,6 +38,18 @@ class VClock(ClockBase):
     def get_datetime(self):
         return datetime.datetime.fromtimestamp(self.get_time() + 100000)
 
+    serial_factory = None       # callable(url, loop) -> mc.serial.VPort
+    ports = None
+
+    async def open_serial_connection(self, limit=None, **kwargs):
+        if self.serial_factory is None:
+            raise AssertionError("no emulated serial port for %r" % (kwargs,))
+        port = self.serial_factory(kwargs["url"], self._vloop)
+        if self.ports is None:
+            self.ports = {}
+        self.ports[kwargs["url"]] = port
+        return port.reader, port
+
 
 class MemDataManager(DataManager):
     """In-memory data manager (what the suite's TestDataManager does)."""
@@ -101,10 +113,11 @@ class System:
 
     def __init__(self, machine_name, config_file="config.yaml", platform="virtual", patches=None,
                  mock_data=None, machine_path=None, early_init=None, data_manager_factory=None,
-                 spec_patches=None, boot=True):
+                 spec_patches=None, boot=True, serial=None):
         self.loop = VLoop()
         self.loop.activate()
         self.clock = VClock(self.loop)
+        self.clock.serial_factory = serial
         path = machine_path or os.path.join(MACHINES, machine_name)
         p = {"mpf": {"default_platform_hz": 100, "plugins": []}, "bcp": []}
         if patches:
